@@ -33,12 +33,13 @@ inductive Tok
   | lb | rb | lc | rc | comma | colon | prim (p : Prim)
 deriving DecidableEq, Repr
 
-/-- insert a key/value pair into a key-sorted association list (stable: after equal keys) -/
+/-- insert a key/value pair into a key-sorted association list (before greater keys; members with
+    equal keys do not keep their order — Python dict keys are distinct, see `DistinctJ`) -/
 def insertKV {β} (k : String) (v : β) : List (String × β) → List (String × β)
   | [] => [(k, v)]
   | (k', v') :: rest => if k < k' then (k, v) :: (k', v') :: rest else (k', v') :: insertKV k v rest
 
-/-- `sorted(obj.items(), key=lambda t: t[0])` (insertion sort, stable) -/
+/-- `sorted(obj.items(), key=lambda t: t[0])` (insertion sort) -/
 def sortKV {β} (l : List (String × β)) : List (String × β) := l.foldr (fun p acc => insertKV p.1 p.2 acc) []
 
 /-- members joined by commas: `"k":v,"k2":v2` -/
